@@ -17,6 +17,6 @@ for s in $seeds; do
   if ! git -C $repo apply $d/patch.diff 2>/dev/null; then echo "$s $prop PATCH-DOES-NOT-APPLY"; continue; fi
   out=$($here/bin/govc check -repo $repo -verif $here -property $prop -tier quick 2>&1 | grep -v "^KNOWN-FINDING")
   git -C $repo checkout -q -- .
-  if echo "$out" | grep -q "^VIOLATION"; then echo "$s $prop detected: $(echo "$out" | grep -c '^VIOLATION') violation lines; $(echo "$out" | grep '^VIOLATION' | head -1 | cut -c1-200)"; else echo "$s $prop MISSED: $(echo "$out" | tail -1)"; fi
+  if echo "$out" | grep -aq "^VIOLATION"; then echo "$s $prop detected: $(echo "$out" | grep -ac "^VIOLATION") violation lines; $(echo "$out" | grep -a "^VIOLATION" | head -1 | cut -c1-200)"; else echo "$s $prop MISSED: $(echo "$out" | tail -1)"; fi
 done
 [ $made = 1 ] && git -C /repo worktree remove --force $repo
